@@ -194,6 +194,7 @@ func caseVariantLong(s string, variant int, h uint64) string {
 }
 
 func runC10(c *rt.Ctx) {
+	soloRun(c, "roman")
 	callerEditsReturnedErrors(c, map[string]func() error{
 		"roman.DefaultParser[string](VIIIII, 0)":                 func() error { _, err := roman.DefaultParser("VIIIII", 0); return err },
 		"roman.DefaultParser[[]byte](IIX, 0)":                    func() error { _, err := roman.DefaultParser([]byte("IIX"), 0); return err },
